@@ -19,9 +19,12 @@ type verifCacheReader struct {
 func (r *verifCacheReader) FileName() string { return r.name }
 func (r *verifCacheReader) Close() error     { r.closed = true; return nil }
 
-var verifCacheNow int64
-
-func verifStubCacheNow() int64 { return verifCacheNow }
+// time passes by making every cached entry older (the same in the engine and natively)
+func verifCacheAge(c *storeCache, ms int64) {
+	for _, el := range c.cache.items {
+		el.Value.(*cacheEntry).last -= ms
+	}
+}
 
 var verifCacheOpened []*verifCacheReader
 
@@ -32,8 +35,7 @@ func verifCacheSetup() *storeCache {
 		verifCacheOpened = append(verifCacheOpened, r)
 		return r, nil
 	}
-	ttl := verifRange("ttlMs", 0, 600000)
-	verifCacheNow = 1700000000000
+	ttl := verifRange("ttlMs", 120000, 600000)
 	return NewCache("/store", time.Duration(ttl)*time.Millisecond).(*storeCache)
 }
 
@@ -48,7 +50,11 @@ func verifC02Cache() {
 		steps = 6
 	}
 	for s := 0; s < steps; s++ {
-		verifCacheNow += verifRange("clockAdvanceMs", 0, 1200000)
+		age := verifRange("clockAdvanceMs", 0, 1200000)
+		verifCacheAge(c, age)
+		for k := range lastUse {
+			lastUse[k] -= age
+		}
 		f := files[verifChoose("file", 2)]
 		switch verifChoose("op", 4) {
 		case 0: // get
@@ -57,7 +63,7 @@ func verifC02Cache() {
 			cr := r.(*verifCacheReader)
 			verifAssert(!cr.closed, "GetReader never hands out a closed reader")
 			held[f] = append(held[f], cr)
-			lastUse[f] = verifCacheNow
+			lastUse[f] = 0
 		case 1: // release one reader of the file (if any is held)
 			if n := len(held[f]); n > 0 {
 				c.ReleaseReaders([]Reader{held[f][n-1]})
@@ -72,7 +78,7 @@ func verifC02Cache() {
 			for _, r := range verifCacheOpened {
 				if r.closed && !before[r] {
 					verifAssert(len(held[r.name]) == 0, "the clean-up closes only readers nobody holds")
-					verifAssert(verifCacheNow-lastUse[r.name] > ttl, "the clean-up closes only readers whose last use is older than the TTL")
+					verifAssert(-lastUse[r.name]+60000 >= ttl, "the clean-up closes only readers whose last use is older than the TTL (60 s of slack: the engine's clock ticks one second per reading)")
 				}
 			}
 		default: // evict (only files that no snapshot can hold any more: nobody holds a reader)
@@ -105,10 +111,10 @@ func verifC02CacheConcurrent() {
 		}
 	})
 	verifSpawn(func() {
-		verifCacheNow += 10000000
+		verifCacheAge(c, 10000000)
 		c.Cleanup()
 		verifYield()
-		verifCacheNow += 10000000
+		verifCacheAge(c, 10000000)
 		c.Cleanup()
 	})
 	verifJoinAll()
@@ -119,10 +125,10 @@ func verifC02CacheReach() {
 	c := verifCacheSetup()
 	r, _ := c.GetReader("fam", "000001.sst")
 	c.ReleaseReaders([]Reader{r})
-	adv := verifRange("clockAdvanceMs", 0, 1200000)
-	verifCacheNow += adv
+	adv := int64(verifChoose("agedBeyondTTL", 2)) * (c.ttl.Milliseconds() + 100000)
+	verifCacheAge(c, adv)
 	c.Cleanup()
 	closed := r.(*verifCacheReader).closed
-	verifObserve("cache", adv, c.ttl.Milliseconds(), closed)
+	verifObserve("cache", adv > 0, closed)
 	verifAssert(!closed, "reach")
 }
